@@ -24,6 +24,8 @@ def render(lines, rnd, variant):
     crlf = (variant // 8) % 2 == 1
     flags_first = (variant // 16) % 2 == 1
     indent = ["", "  ", "\t", "    "][variant % 4]
+    # blanks between the tokens of a line are spacing as well: one blank, several, a tab (one choice per sheet)
+    sep = rnd.choice([" ", " ", " ", "  ", "\t", " \t ", "   "])
     cat_where = (variant // 64) % 3
     if cat_where and lines and lines[0]["kind"] == "CATALOG":
         # CATALOG is a disc-level line that may stand anywhere in the sheet: after the first track's lines, or last
@@ -41,14 +43,19 @@ def render(lines, rnd, variant):
         out.append('REM GENRE "Test"')
         out.append('PERFORMER "Somebody"')
         out.append('FILE "audio.wav" WAVE')
+        # comments that real sheets carry (exported by other tools, for a file that has since changed): no comment changes the layout
+        for _ in range(rnd.randint(0, 3)):
+            out.append(rnd.choice(['REM FLAC__lead-in 88200', 'REM FLAC__lead-out 170 %d' % (588 * rnd.choice([1, 75, 1000, 45000, 10 ** 6])),
+                                   'REM FLAC__lead-out 170 0', 'REM DATE 1999', 'REM DISCID 860B640B', 'REM COMMENT "ExactAudioCopy v1.0"',
+                                   'REM REPLAYGAIN_ALBUM_GAIN -6.50 dB', 'REM TRACK 01 AUDIO', 'REM INDEX 01 00:00:00', 'REM CATALOG 1234567890123', 'REM']))
     for ln in lines:
         k = ln["kind"]
         if k == "CATALOG":
             # 13 digits; special values are digits like any others
             catalog = rnd.choice(["".join(rnd.choice("0123456789") for _ in range(13))] * 3 + ["0000000000000", "9999999999999", "0000000000001", "1000000000000"])
-            out.append("CATALOG " + ('"%s"' % catalog if quote else catalog))
+            out.append(("", ["CATALOG", '"%s"' % catalog if quote else catalog]))
         elif k == "TRACK":
-            out.append(indent + "TRACK %s AUDIO" % (("%02d" % ln["n"]) if lead0 else str(ln["n"])))
+            out.append((indent, ["TRACK", ("%02d" % ln["n"]) if lead0 else str(ln["n"]), "AUDIO"]))
             isrcs.append("")
             if extra:
                 out.append(indent * 2 + 'TITLE "Track %d"' % ln["n"])
@@ -56,13 +63,17 @@ def render(lines, rnd, variant):
             code = rnd.choice(["US", "ZZ", "AA"]) + rnd.choice(["S1Z", "ABC", "A1B", "000", "ZZZ", "999"]) + rnd.choice(["%02d" % rnd.randint(0, 99), "00", "99"]) + rnd.choice(["%05d" % rnd.randint(0, 99999), "00000", "99999"])
             isrcs[-1] = code
             shown = code if variant % 3 else code[:2] + "-" + code[2:5] + "-" + code[5:7] + "-" + code[7:]
-            out.append(indent * 2 + "ISRC " + ('"%s"' % shown if quote else shown))
+            out.append((indent * 2, ["ISRC", '"%s"' % shown if quote else shown]))
         elif k == "FLAGS":
-            out.append(indent * 2 + "FLAGS PRE")
+            # a FLAGS line lists one or more of DCP 4CH PRE SCMS in any order; PRE is the one a FLAC cue sheet records
+            out.append((indent * 2, ["FLAGS"] + rnd.choice(["PRE", "PRE", "DCP PRE", "PRE DCP", "4CH PRE SCMS", "DCP 4CH PRE"]).split()))
         elif k == "INDEX":
-            out.append(indent * 2 + "INDEX %s %s" % (("%02d" % ln["n"]) if (lead0 or ln["n"] > 9) else str(ln["n"]), mmssff(ln["sectors"])))
+            out.append((indent * 2, ["INDEX", ("%02d" % ln["n"]) if (lead0 or ln["n"] > 9) else str(ln["n"]), mmssff(ln["sectors"])]))
     if extra:
+        if rnd.random() < 0.5:
+            out.append('REM FLAC__lead-out 170 %d' % (588 * rnd.choice([3, 7500, 123456])))
         out.append("")
+    out = [ln if isinstance(ln, str) else ln[0] + sep.join(ln[1]) for ln in out]
     if (variant // 32) % 2 == 1:
         # blanks after the last token of a line are spacing too
         out = [ln + rnd.choice([" ", "\t", "  ", " \t "]) if ln else ln for ln in out]
